@@ -53,6 +53,8 @@ def tie(ctx, doc, label):
     def count(k, n=1):
         st[k] = st.get(k, 0) + n
 
+    repaired = m.ask("(104 7)") == "1"      # the premises of the theorem hold of the tree under check
+    st["theorem_premises(export repairs present)"] = repaired
     r = run_cli_mode(RapidProContainer.from_dict, doc)
     if r[0] != "ok":
         count("load_error")
@@ -73,7 +75,7 @@ def tie(ctx, doc, label):
                          dict(where, container=doc), fres, "1")
         why = parse_sexp(m.ask(f"(104 4 {sx})"))
         count("exportable" if why == 0 else f"not_exportable_{why}")
-        single = all(len(n.actions) <= 1 for n in fl.nodes)
+        single = m.ask(f"(104 8 {sx})") == "1"
         for nb, strip in ((0, 0), (1, 1)):
             # (a) abs_rows against rowref on the implementation's rows
             ir = run_cli_mode(fl.to_rows, bool(nb))
@@ -100,6 +102,6 @@ def tie(ctx, doc, label):
             out = parse_sexp(m.ask(f"(104 1 {nb} {strip} {sx})"))
             ctx.v.coverage["evaluations"] += 1
             count(f"means_{out}")
-            if why == 0 and (not strip or single) and out not in (0, 4):
+            if repaired and why == 0 and (not strip or single) and out not in (0, 4):
                 ctx.disagree("to_rows_means_flow fails on a flow of the family (contradicts the proved theorem)",
                              dict(where, numbered=nb, strip_uuids=strip, container=doc), out, 4)
